@@ -8,14 +8,15 @@ test = node | text | comment | pi | pi:<target> | any | q:<uri>:<local> | ns:<ur
 With OP=state (no E): the generator traces of EPV/Model/AxesState.lean, see `answerState`.
 Optional F=<position>,<size> and AX=<axis> = initial position/size/axis arguments of the context.
 Answer:  wf=<0|1> fl=<0|1: T = flatten X> ty=<path|num|bool|none>
-         R=<ctx>:<model>:<spec|NA>:<inK>:<item,axis,pos,size left in the caller's context (evalS)>:<evalS value = eval value>|...
-value = N<i>,<i>,... | B0 | B1 | #<k> | ERR;  inK = 1 (F01b trigger) + 2 (F01c trigger) + 4 (F01i trigger)
+         R=<ctx>:<model>:<spec|NA>:<inK>:<item,axis,pos,size left in the caller's context (evalS)>:<evalS value = eval value>:<evaluate() 1.0/2.0>:<evaluate() 3.0/3.1>|...   (L = list, I = single node)
+value = N<i>,<i>,... | B0 | B1 | #<k> | ERR;  inK = 0 (no finding triggers left)
 -/
 import EPV.Proto
 import EPV.Spec.XPath1Paths
 import EPV.Model.AxesTree
 import EPV.Model.AxesState
 import EPV.Model.AxesEvalState
+import EPV.Model.AxesEvaluate
 open EPV.Proto EPV.XP
 
 def parseKind : String → Option Kind
@@ -196,12 +197,15 @@ def answerExpr (line : String) (m : Mode) (a : Arr) (e : Expr) : String :=
     let rs := evalS m a e ⟨c, ax0, p0, s0⟩
     let mv := if ax0.isSome then rs.1 else eval m a e f
     let sv := Spec.sem m a e f
-    let k := (if safeG (fun ax t _ n => !trigF01b m a ax t n) m a e f then 0 else 1) +
-             (if safeG (fun ax t _ n => !trigF01c m a ax t n) m a e f then 0 else 2) +
-             (if safeG (fun ax t ab n => !trigF01i m a ax t ab n) m a e f then 0 else 4)
+    let k := 0   -- (no known finding left: the trigger field of the protocol stays 0)
     let fin := s!"{rs.2.item},{match rs.2.axis with | some ax => axisName ax | none => "-"},{rs.2.pos},{rs.2.size}"
     let same := if rs.1 == eval m a e f then 1 else 0
-    s!"{c}:{showVal mv}:{if ax0.isSome then "NA" else showVal sv}:{k}:{fin}:{same}"
+    let showPy (p : PyVal) : String := match p with
+      | .seq l => "L" ++ ",".intercalate (l.map toString)
+      | .node n => s!"I{n}"
+      | .num k => s!"#{k}" | .dec ng k => s!"#{if ng then "-" else ""}{k}/10"
+      | .bool b => if b then "B1" else "B0" | .err => "ERR"
+    s!"{c}:{showVal mv}:{if ax0.isSome then "NA" else showVal sv}:{k}:{fin}:{same}:{showPy (evaluate false m a e f)}:{showPy (evaluate true m a e f)}"
   s!"wf={if wf then 1 else 0} fl={if fl then 1 else 0} ty={tyS} R={"|".intercalate outs}"
 
 def answer (line : String) : String :=
